@@ -569,6 +569,67 @@ func (f *SQLFormatter) formatCreateTable(stmt *ast.CreateTableStatement) error {
 		f.builder.WriteString(" (" + strings.Join(stmt.PartitionBy.Columns, ", ") + ")")
 	}
 
+	if len(stmt.Partitions) > 0 {
+		f.builder.WriteString(" (")
+		for i := range stmt.Partitions {
+			if i > 0 {
+				f.builder.WriteString(", ")
+			}
+			if err := f.formatPartitionDefinition(&stmt.Partitions[i]); err != nil {
+				return err
+			}
+		}
+		f.builder.WriteString(")")
+	}
+
+	for _, opt := range stmt.Options {
+		f.builder.WriteString(" " + opt.Name + "=" + opt.Value)
+	}
+
+	return nil
+}
+
+// formatPartitionDefinition formats one PARTITION definition of CREATE TABLE
+func (f *SQLFormatter) formatPartitionDefinition(pd *ast.PartitionDefinition) error {
+	f.writeKeyword("PARTITION")
+	f.builder.WriteString(" " + pd.Name)
+	list := func(kw string, exprs ...ast.Expression) error {
+		f.builder.WriteString(" ")
+		f.writeKeyword(kw)
+		f.builder.WriteString(" (")
+		for i, e := range exprs {
+			if i > 0 {
+				f.builder.WriteString(", ")
+			}
+			if err := f.formatExpression(e); err != nil {
+				return err
+			}
+		}
+		f.builder.WriteString(")")
+		return nil
+	}
+	switch {
+	case pd.LessThan != nil:
+		if err := list("VALUES LESS THAN", pd.LessThan); err != nil {
+			return err
+		}
+	case len(pd.InValues) > 0:
+		if err := list("VALUES IN", pd.InValues...); err != nil {
+			return err
+		}
+	case pd.From != nil || pd.To != nil:
+		if err := list("VALUES FROM", pd.From); err != nil {
+			return err
+		}
+		if err := list("TO", pd.To); err != nil {
+			return err
+		}
+	}
+	if pd.Tablespace != "" {
+		f.builder.WriteString(" ")
+		f.writeKeyword("TABLESPACE")
+		f.builder.WriteString(" " + pd.Tablespace)
+	}
 	return nil
 }
 
@@ -641,8 +702,17 @@ func (f *SQLFormatter) formatCreateIndex(stmt *ast.CreateIndexStatement) error {
 			f.builder.WriteString(", ")
 		}
 		f.builder.WriteString(col.Column)
+		if col.Collate != "" {
+			f.builder.WriteString(" ")
+			f.writeKeyword("COLLATE")
+			f.builder.WriteString(" " + col.Collate)
+		}
 		if col.Direction != "" {
 			f.builder.WriteString(" " + col.Direction)
+		}
+		if col.NullsLast {
+			f.builder.WriteString(" ")
+			f.writeKeyword("NULLS LAST")
 		}
 	}
 	f.builder.WriteString(")")
@@ -1612,6 +1682,12 @@ func (f *SQLFormatter) formatCreateMaterializedView(stmt *ast.CreateMaterialized
 			f.builder.WriteString(col)
 		}
 		f.builder.WriteString(")")
+	}
+
+	if stmt.Tablespace != "" {
+		f.builder.WriteString(" ")
+		f.writeKeyword("TABLESPACE")
+		f.builder.WriteString(" " + stmt.Tablespace)
 	}
 
 	f.builder.WriteString(" ")
